@@ -15,16 +15,18 @@ TECHNIQUE = ('literal/field dispatch-table agreement across the sites that enume
              'dominance-checked guards')
 LEVEL_TEXT = ('Decides clauses C01-a..g: at each site that maps methods to per-method trees (Router::handle, gen_openapi_doc, From<base::Router>, register!, merge!, '
               'apply_to!) the tree used for a Method variant is the field of the same name (HEAD served by the GET tree, its body dropped and its headers kept), and '
-              "all sites cover the same variants; Node::search returns the node's proc exactly on a hit and its catch otherwise, the catch being built from "
-              'default_not_found (404 Not Found); every unsafe operation reachable from the search is dominated by its guard, and the fixed-size captured-parameter '
-              'buffer cannot be overrun because finalize() refuses routes with more `:param` segments than it holds; when a final node is built, its children are put'
-              ' into search order (static before param) after the last step that changes the child list (single-child compression), so the order search relies on '
-              "does not depend on registration order; while compressing single-child chains a node takes over its child's handler only under a test, made in the same"
-              ' iteration, that it has none of its own; a static pattern answers a match only on paths that establish a segment boundary (nothing left, or the next '
-              'byte is `/`), so `/users` is not matched by `/users2`; a base node never gets a second param child: every append_child is preceded by a look-up that '
-              'found no matchable child (a param pattern being matched by any existing param child), and `children` grows nowhere else; mounting assigns the handler '
-              'of the node at the mount point only from a handler the mounted root has (never erases a registered one). Decides these clauses, not segment-matching '
-              'semantics over all route sets and paths.')
+              "all sites cover the same variants; Node::search returns the node's proc exactly on a hit and its catch otherwise, the catch being built from default_n"
+              'ot_found (404 Not Found); every unsafe operation reachable from the search is dominated by its guard, and the fixed-size captured-parameter buffer can'
+              'not be overrun because finalize() refuses routes with more `:param` segments than it holds; when a final node is built, its children are put into sear'
+              'ch order (static before param) after the last step that changes the child list (single-child compression), so the order search relies on does not depe'
+              "nd on registration order; while compressing single-child chains a node takes over its child's handler only under a test, made in the same iteration, t"
+              'hat it has none of its own; a static pattern answers a match only on paths that establish a segment boundary (nothing left, or the next byte is `/`), '
+              'so `/users` is not matched by `/users2`; a base node never gets a second param child: every append_child is preceded by a look-up that found no matcha'
+              'ble child (a param pattern being matched by any existing param child), and `children` grows nowhere else; mounting assigns the handler of the node at '
+              'the mount point only from a handler the mounted root has (never erases a registered one). C01-j: the normalised request path stored by Path::init_with'
+              '_request_bytes has the length of the request target, or that length minus one only under a test that the last byte is a slash, the subtraction not bei'
+              'ng repeated (one trailing slash is ignored, not all: a path with an extra empty trailing segment matches nothing). Decides these clauses, not segment-'
+              'matching semantics over all route sets and paths.')
 
 METHODS = ["GET", "PUT", "POST", "PATCH", "DELETE", "OPTIONS"]
 
@@ -68,6 +70,7 @@ def run(ck, progs):
         ck.guard("C01-i GUARD param segment non-empty", lambda: c01i(ck, prog))
         ck.guard("C01-f GUARD segment boundary", lambda: c01f(ck, prog))
         ck.guard("C01-g INVARIANT one param child", lambda: c01g(ck, prog))
+        ck.guard("C01-j DECISION one trailing slash", lambda: c01j(ck, prog))
     ck.config = None
 
 
@@ -649,3 +652,57 @@ def c01i(ck, prog):
               "" if ok else "the Param arm of take_through answers Some(remaining) on a path that never established that the captured segment is non-empty (the byte after the `/` is not `/`): "
               "`/users//posts` matches `/users/:id/posts` with an empty id", how="every path to Some(remaining) takes an edge `next byte != '/'` (or a non-emptiness test of the captured slice)")
     ck.floor(R, "Some answers of the Param arm", len(somes), 1)
+
+
+def c01j(ck, prog):
+    """`one trailing slash is ignored` -- one, not all: `/users//` has an extra empty segment and matches nothing. The length
+    of the normalised path that Path::init_with_request_bytes stores is the length of the request target, or that length
+    minus one, the latter only under a test that the last byte is `/` (and the subtraction is not repeated)."""
+    from .lib.bound import natural_loops
+    R = "C01-j DECISION one trailing slash"
+    f = prog.one(r"request::path::.*Path>::init_with_request_bytes$")
+    f = prog.inlined(f, 1, lambda caller, callee: callee.crate == caller.crate and len(callee.blocks) < 60 and "request::path" in callee.key)
+    cs = f.calls_to(r"Slice::new_unchecked$|Slice::from_bytes$")
+    if len(cs) != 1:
+        raise AnchorLost("the normalised path is not built by exactly one Slice constructor in init_with_request_bytes (%d)" % len(cs))
+    c = cs[0]
+    lenop = c.args[1] if c.name == "new_unchecked" else c.args[0]
+    d = decision.describe_deep(f, lenop, 10)
+    whole = re.compile(r"^len\((deref\()*arg2\)*$")
+    ok, how = False, d[:90]
+    o = f.origin(lenop)
+    if whole.match(d):
+        ok, how = False, "the whole target, trailing slash kept"
+    elif re.search(r"strip_suffix\((deref\()*arg2\)*,const b?['\"]/['\"]", d) and re.search(r"unwrap_or\(", d) and not re.search(r"trim_end|rposition|rfind|rsplit|trim_matches", d):
+        ok, how = True, "strip_suffix(b\"/\").unwrap_or(whole)"
+    elif o and o[-1][0] == "multi":
+        loops = natural_loops(f)
+        defs = [x for x in f.defs().get(o[-1][1], []) if not f.is_cleanup(x[0])]
+        kinds = []
+        for (dbb, si, dk, payload) in defs:
+            if dk == "call":
+                cd = decision.describe_deep(f, ["c", [o[-1][1], []]], 1)
+                from .lib.mir import Call
+                cc = Call(f, dbb, payload, False)
+                kinds.append("whole" if cc.name == "len" and cc.args and re.match(r"^(deref\()*arg2\)*$", decision.describe_deep(f, cc.args[0], 4)) else "other:call %s" % cc.name)
+            elif dk == "assign" and payload["r"][0] == "use":
+                dd = decision.describe_deep(f, payload["r"][1], 6)
+                m = re.match(r"^Sub(?:WithOverflow)?\((?:var:\w+|len\((?:deref\()*arg2\)*),const 1\)(\.0)?$", dd)
+                in_loop = any(dbb in body for body in loops.values())
+                last_is_slash = False
+                for fa in guards.facts_at(f, prog, dbb):
+                    if fa.kind == "cmp" and fa.op == "Eq":
+                        l, r = guards.describe_origin(f, fa.lhs), guards.describe_origin(f, fa.rhs)
+                        if ("const 47" in (l, r)) and re.search(r"get_unchecked|index|last|arg2", l + r):
+                            last_is_slash = True
+                    elif fa.kind == "boolcall" and fa.truth and fa.call.name == "ends_with":
+                        last_is_slash = True
+                    elif fa.kind == "variant" and fa.allowed == {"Some"} and "strip_suffix" in guards.describe_origin(f, fa.steps):
+                        last_is_slash = True
+                kinds.append("minus-one" if (m and last_is_slash and not in_loop) else "other:%s%s%s" % (dd[:40], "" if last_is_slash else " (not under `last byte is /`)", " (in a loop)" if in_loop else ""))
+            else:
+                kinds.append("other:%s" % dk)
+        ok = set(kinds) == {"minus-one", "whole"} and kinds.count("minus-one") == 1
+        how = "len = target length; len -= 1 iff the last byte is `/`" if ok else "definitions of the length: %s" % kinds
+    ck.ob(R, "normalised-length", ok, f.loc(c.sp), "" if ok else "the normalised request path has length `%s`: not `the target with exactly one trailing slash removed` -- paths with an extra empty trailing segment (`/users//`) "
+          "would be dispatched like `/users`, or a single trailing slash would not be ignored" % how, how=how)
